@@ -537,6 +537,43 @@ func (e *Env) spawnRulesOn(g *core.XG, rootName string, obGo, obDrv, obEx *core.
 	if nDrv != 1 {
 		obDrv.Fail(rootName, fmt.Sprintf("%d synchronous calls of the driver's Run (exactly 1 expected)", nDrv))
 	}
+	// the driver is a member of the run set (or the sink): a driver picked among ALL processes of the workflow runs a
+	// process RunTo was not asked for - in the calling goroutine, so RunTo returns when IT returns
+	obIn := e.R.Ob(ruleOfKey(obEx.Key), "runProcs:driver∈run-set", "the process made the driver is an element of the very collection the spawn loop ranges (or the sink)")
+	sinkField := "." + fieldName(p.FieldVar("scipipe", "Workflow", "sink"))
+	nSt := 0
+	for _, n := range g.Nodes {
+		st, ok := n.Instr.(*ssa.Store)
+		if !ok {
+			continue
+		}
+		fa, ok := st.Addr.(*ssa.FieldAddr)
+		if !ok || drvField == nil {
+			continue
+		}
+		if sT, ok := deref2(fa.X.Type()).Underlying().(*types.Struct); !ok || fa.Field >= sT.NumFields() || sT.Field(fa.Field) != drvField {
+			continue
+		}
+		nSt++
+		vs := e.symbolizer().InCtx(n.Ctx, st.Val).String()
+		switch {
+		case strings.HasSuffix(vs, sinkField) || strings.Contains(vs, sinkField+")") || strings.Contains(vs, "NewSink("):
+			obIn.OK(g.Where(n), "driver ← the sink")
+		case strings.HasPrefix(vs, "val∈"):
+			coll := strings.TrimPrefix(vs, "val∈")
+			obIn.Check(coll == ranged, g.Where(n), "driver ← element of "+trunc(ranged, 60), "the driver is taken from "+trunc(coll, 100)+", which is not the set of processes being run ("+trunc(ranged, 60)+"): with RunTo a process outside the requested closure becomes the driver, its commands run and RunTo returns when it returns")
+		default:
+			// make-interface wrappers etc.
+			if strings.Contains(vs, "val∈"+ranged) && !strings.Contains(strings.Replace(vs, "val∈"+ranged, "", 1), "val∈") {
+				obIn.OK(g.Where(n), "driver ← element of "+trunc(ranged, 60))
+			} else {
+				obIn.Fail(g.Where(n), "the driver is set to "+trunc(vs, 120)+", which is neither the sink nor an element of the set of processes being run ("+trunc(ranged, 60)+")")
+			}
+		}
+	}
+	if nSt == 0 {
+		obIn.OK(rootName, "no assignment of the driver in this call tree")
+	}
 	// exclusion of the driver
 	if usesSkip {
 		obEx.OK(g.Where(gr), "skip-in-loop: the go is reached only when the element differs from the driver")
@@ -569,4 +606,22 @@ func fieldName(f *types.Var) string {
 		return "\x00"
 	}
 	return f.Name()
+}
+
+func deref2(t types.Type) types.Type {
+	if p, ok := t.Underlying().(*types.Pointer); ok {
+		return p.Elem()
+	}
+	return t
+}
+
+// ruleOfKey: "C04.R6@x" -> "R6".
+func ruleOfKey(key string) string {
+	if i := strings.Index(key, "."); i >= 0 {
+		key = key[i+1:]
+	}
+	if i := strings.Index(key, "@"); i >= 0 {
+		key = key[:i]
+	}
+	return key
 }
